@@ -291,7 +291,7 @@ class PipeAnalysis:
         finally:
             self.ops.inst = None
 
-    def run_backward(self, inputs_given: bool, chunk_given: bool, single: bool = False, inst=None):
+    def run_backward(self, inputs_given: bool, chunk_given: bool, single: bool = False, inst=None, oneshot=()):
         f = self.index.get_function("torchjd.autojac.backward.backward")
         args = {
             "tensors": key_tv("tensors") if single else keys_list("tensors"),
@@ -300,9 +300,9 @@ class PipeAnalysis:
             "retain_graph": flag("retain_graph"),
             "parallel_chunk_size": self.chunk_arg(chunk_given, inst),
         }
-        return self._run(f, args)
+        return self._run(f, args, oneshot)
 
-    def run_mtl(self, tasks_given: bool, shared_given: bool, chunk_given: bool, single: bool = False, inst=None):
+    def run_mtl(self, tasks_given: bool, shared_given: bool, chunk_given: bool, single: bool = False, inst=None, oneshot=()):
         f = self.index.get_function("torchjd.autojac.mtl_backward.mtl_backward")
         tp = ListV(items=None, elem=keys_list("tasks_params[i]"), kind="list", order=(("tasks",), "same"))
         args = {
@@ -314,9 +314,9 @@ class PipeAnalysis:
             "retain_graph": flag("retain_graph"),
             "parallel_chunk_size": self.chunk_arg(chunk_given, inst),
         }
-        return self._run(f, args)
+        return self._run(f, args, oneshot)
 
-    def _run(self, f, args):
+    def _run(self, f, args, oneshot=()):
         params = [a.arg for a in f.node.args.args]
         missing = [p for p in params if p not in args]
         if missing:
@@ -327,6 +327,9 @@ class PipeAnalysis:
             self.ops.seq = 0
             self.ops.loop_orders = []
             self.ops.loop_ids = []
-            return self.interp.exec_function(f, dict(args), None)
+            a = dict(args)
+            for name in oneshot:  # the argument is handed over as a one-shot iterable (iterator, generator): always true, no len()
+                a[name] = self.ops.fresh_iter(a[name])
+            return self.interp.exec_function(f, a, None)
 
         return self.interp.run_paths(thunk)
